@@ -137,6 +137,34 @@ func msgText(m string) (string, bool) {
 		return "-> confirm " + b64("y") + " " + b64("n") + " " + b64("m") + " " + b64("x") + " x y z w v\n" + body("?"), true
 	case "x_emptytype":
 		return "->  \n\n", true
+	// the error command in every argument shape (the protocol has `error internal`, `error recipient N`,
+	// `error identity N`, `error stanza F N`): indices negative, huge, overflowing, non-numeric, missing
+	case "x_err_noargs":
+		return "-> error\n" + body("e"), true
+	case "x_err_stanza_neg":
+		return "-> error stanza 0 -1\n" + body("e"), true
+	case "x_err_stanza_min":
+		return "-> error stanza 0 -9223372036854775808\n" + body("e"), true
+	case "x_err_stanza_big":
+		return "-> error stanza 0 99999\n" + body("e"), true
+	case "x_err_stanza_over":
+		return "-> error stanza 0 99999999999999999999\n" + body("e"), true
+	case "x_err_stanza_nan":
+		return "-> error stanza zero one\n" + body("e"), true
+	case "x_err_stanza_f1":
+		return "-> error stanza 1 0\n" + body("e"), true
+	case "x_err_stanza_ok":
+		return "-> error stanza 0 0\n" + body("e"), true
+	case "x_err_stanza_short":
+		return "-> error stanza 0\n" + body("e"), true
+	case "x_err_recipient_neg":
+		return "-> error recipient -1\n" + body("e"), true
+	case "x_err_identity_neg":
+		return "-> error identity -1\n" + body("e"), true
+	case "x_err_identity_big":
+		return "-> error identity 7\n" + body("e"), true
+	case "x_err_nobody":
+		return "-> error internal\n\n", true
 	}
 	panic("message " + m)
 }
@@ -551,7 +579,9 @@ func HostileForC14(run *vk.Run) {
 	var cases []pcase
 	alpha := []string{"rs_ok", "rs_idx1", "rs_neg", "rs_nan", "rs_short", "labels0", "labels_ab", "fk_ok", "fk_idx1", "fk_neg", "fk_nan", "fk_args0", "fk_args2",
 		"error", "done", "msg", "req_secret", "req_public", "confirm1", "confirm2", "confirm0", "confirm3", "confirm_bad64", "unknown", "garbage", "trunc", "eof",
-		"x_manyargs", "x_longline", "x_bigbody", "x_binary", "x_confirm9", "x_emptytype"}
+		"x_manyargs", "x_longline", "x_bigbody", "x_binary", "x_confirm9", "x_emptytype",
+		"x_err_noargs", "x_err_stanza_neg", "x_err_stanza_min", "x_err_stanza_big", "x_err_stanza_over", "x_err_stanza_nan", "x_err_stanza_f1", "x_err_stanza_ok",
+		"x_err_stanza_short", "x_err_recipient_neg", "x_err_identity_neg", "x_err_identity_big", "x_err_nobody"}
 	for _, mode := range []string{"recipient", "identity"} {
 		for _, a := range alpha {
 			for _, b := range append([]string{""}, "done", "confirm3", "msg", "x_confirm9") {
